@@ -1,0 +1,66 @@
+// MIT License
+//
+// Copyright (c) 2022-2026 GoAkt Team
+//
+// Permission is hereby granted, free of charge, to any person obtaining a copy
+// of this software and associated documentation files (the "Software"), to deal
+// in the Software without restriction, including without limitation the rights
+// to use, copy, modify, merge, publish, distribute, sublicense, and/or sell
+// copies of the Software, and to permit persons to whom the Software is
+// furnished to do so, subject to the following conditions:
+//
+// The above copyright notice and this permission notice shall be included in all
+// copies or substantial portions of the Software.
+//
+// THE SOFTWARE IS PROVIDED "AS IS", WITHOUT WARRANTY OF ANY KIND, EXPRESS OR
+// IMPLIED, INCLUDING BUT NOT LIMITED TO THE WARRANTIES OF MERCHANTABILITY,
+// FITNESS FOR A PARTICULAR PURPOSE AND NONINFRINGEMENT. IN NO EVENT SHALL THE
+// AUTHORS OR COPYRIGHT HOLDERS BE LIABLE FOR ANY CLAIM, DAMAGES OR OTHER
+// LIABILITY, WHETHER IN AN ACTION OF CONTRACT, TORT OR OTHERWISE, ARISING FROM,
+// OUT OF OR IN CONNECTION WITH THE SOFTWARE OR THE USE OR OTHER DEALINGS IN THE
+// SOFTWARE.
+
+//go:build verif
+
+// Package verifhook provides instrumentation points for external model-based
+// verification harnesses. With the "verif" build tag a harness can install a
+// Handler that observes (and may block at) every instrumented atomic step.
+package verifhook
+
+import "sync/atomic"
+
+// Enabled reports whether the hooks are compiled in.
+const Enabled = true
+
+// Handler receives hook calls. Implementations must be safe for concurrent use.
+type Handler interface {
+	// At is called at an instrumented step of obj; it may block to gate the caller.
+	At(point string, obj any, a, b int64)
+	// Fault returns a fault decision for point (0 = no fault).
+	Fault(point string, obj any, a int64) int
+}
+
+type holder struct{ h Handler }
+
+var current atomic.Pointer[holder]
+
+// Install sets the active handler.
+func Install(h Handler) { current.Store(&holder{h: h}) }
+
+// Uninstall removes the active handler.
+func Uninstall() { current.Store(nil) }
+
+// At marks an atomic step of obj.
+func At(point string, obj any, a, b int64) {
+	if c := current.Load(); c != nil {
+		c.h.At(point, obj, a, b)
+	}
+}
+
+// Fault asks the installed handler for a fault decision at point (0 = none).
+func Fault(point string, obj any, a int64) int {
+	if c := current.Load(); c != nil {
+		return c.h.Fault(point, obj, a)
+	}
+	return 0
+}
